@@ -34,8 +34,9 @@ REFACTORS = [
       ('kfac/layers/eigen.py', 'self.g_factor.to(torch.float32)',
        'self.g_factor.to(torch.float64)', None)], TRAIN),
     ('rename_private_factor_attribute',
-     [('kfac/layers/base.py', '_a_factor', '_afactor_store', None),
-      ('kfac/layers/base.py', '_g_factor', '_gfactor_store', None)], TRAIN),
+     [('kfac/layers/base.py', 'self._a_factor', 'self._afactor_store', None),
+      ('kfac/layers/base.py', 'self._g_factor', 'self._gfactor_store', None)],
+     TRAIN),
     ('eigenvalues_broadcast_before_vectors',
      [('kfac/layers/eigen.py',
        "        self.qa = self.tdc.broadcast(  # type: ignore\n"
@@ -60,7 +61,9 @@ REFACTORS = [
      [('kfac/layers/base.py',
        "            group=group,\n        )\n\n    def reduce_g_factor",
        "            group=group,\n        )\n"
-       "        _ = self.a_factor\n\n    def reduce_g_factor", 1)], TRAIN),
+       "        if self.allreduce_method == AllreduceMethod.ALLREDUCE:\n"
+       "            _ = self.a_factor  # bucketed futures resolve at flush\n"
+       "\n    def reduce_g_factor", 1)], TRAIN),
     ('inplace_factor_ema',
      [('kfac/layers/base.py',
        'self.a_factor = (alpha * self.a_factor) + ((1 - alpha) * a_new)',
